@@ -99,6 +99,10 @@ class Forger:
         if self.wire.is_authentic(data) and op['kind'] not in ('reflect',):
             return self._r('skip.became_authentic')
         peer_addr = str(sa.peer_addr)
+        if op.get('seed', 0) % 4 == 0:
+            # a forger does not have to spoof the peer's source address: datagrams are routed by SPI, wherever they come from
+            peer_addr = '203.0.113.66' if sa.my_addr.version == 4 else '2001:db8::66'
+            self._r('inj.from_foreign_address')
         sock = node.udp.get(str(sa.my_addr))
         if sock is None:
             return
